@@ -5,20 +5,7 @@
 //!   vp selftest
 //!   vp list
 
-mod big;
-mod child;
-mod engine;
-mod gen;
-mod gen_text;
-mod layout;
-mod model;
-mod mv;
-mod opts;
-mod props;
-mod reader;
-#[cfg(feature = "ff")]
-mod serde_fam;
-mod util;
+use vp::{big, engine, layout, model, mv, opts, props, reader, util};
 
 use std::path::{Path, PathBuf};
 use std::time::Instant;
@@ -123,11 +110,20 @@ fn cmd_run(args: &[String]) -> i32 {
     selftest();
     let start = Instant::now();
     let mut ctx = Ctx::new(prop.id, tier, seed);
-    run_corpus(&mut ctx, &prop);
-    (prop.run)(&mut ctx);
-    ctx.flush_failures();
+    // VP_ONLY_FUZZ=1 (development aid): measure the coverage-guided stage on its own
+    let only_fuzz = std::env::var("VP_ONLY_FUZZ").map_or(false, |v| v == "1");
+    if !only_fuzz {
+        run_corpus(&mut ctx, &prop);
+        (prop.run)(&mut ctx);
+        ctx.flush_failures();
+    }
+    if BUILD == "ff" && vp::fuzz_entry::FUZZ_PROPS.contains(&prop.id) {
+        if let Some(exe) = std::env::var_os("VP_FUZZ_EXE") {
+            fuzz_stage(&mut ctx, Path::new(&exe));
+        }
+    }
     // generator health
-    let required = ctx.required_classes.clone();
+    let required = if only_fuzz { Vec::new() } else { ctx.required_classes.clone() };
     for c in required {
         if ctx.stats.classes.get(c).copied().unwrap_or(0) == 0 {
             ctx.inconclusive
@@ -193,7 +189,14 @@ fn cmd_replay(args: &[String]) -> i32 {
     util::install_quiet_panic_hook();
     let sub = j.get("sub").and_then(|s| s.as_str()).unwrap_or("corpus");
     let case = j.get("case").cloned().unwrap_or(Json::Null);
-    match (prop.replay)(sub, &case) {
+    let result = match case.get("fuzz_input").and_then(|h| h.as_str()) {
+        Some(h) => {
+            let bytes: Vec<u8> = (0..h.len() / 2).filter_map(|i| u8::from_str_radix(&h[2 * i..2 * i + 2], 16).ok()).collect();
+            vp::fuzz_entry::run(id, &bytes)
+        }
+        None => (prop.replay)(sub, &case),
+    };
+    match result {
         None => {
             println!("INCONCLUSIVE cannot decode case");
             2
@@ -219,6 +222,253 @@ fn cmd_replay(args: &[String]) -> i32 {
     }
 }
 
+fn hex(b: &[u8]) -> String {
+    b.iter().map(|x| format!("{:02x}", x)).collect()
+}
+
+/// Coverage-guided stage: run the libFuzzer target (built by ./check from the
+/// current tree) for a fixed number of executions per worker, merge its counts
+/// into the evidence, and turn every saved crash input into a violation with
+/// the usual replay file by running it through the same oracle in-process.
+fn fuzz_stage(ctx: &mut Ctx, exe: &Path) {
+    use std::process::{Command, Stdio};
+    let id = ctx.prop.clone();
+    let tier = ctx.tier;
+    let work = verif_dir().join("work").join("fuzz").join(&id);
+    let _ = std::fs::remove_dir_all(&work);
+    let corpus = work.join("corpus");
+    let art = work.join("artifacts");
+    std::fs::create_dir_all(&corpus).expect("fuzz corpus dir");
+    std::fs::create_dir_all(&art).expect("fuzz artifact dir");
+    // seed corpus: committed inputs (shared + per property)
+    let mut nseeds = 0usize;
+    for d in [verif_dir().join("harness/fuzz/seeds/common"), verif_dir().join("harness/fuzz/seeds").join(&id)] {
+        if let Ok(rd) = std::fs::read_dir(&d) {
+            let mut files: Vec<PathBuf> = rd.filter_map(|e| e.ok().map(|e| e.path())).collect();
+            files.sort();
+            for f in files {
+                if let (Some(name), Ok(data)) = (f.file_name(), std::fs::read(&f)) {
+                    let _ = std::fs::write(corpus.join(name), data);
+                    nseeds += 1;
+                }
+            }
+        }
+    }
+    let workers: u64 = std::env::var("VP_FUZZ_WORKERS").ok().and_then(|s| s.parse().ok()).unwrap_or(tier.pick(8, 16));
+    let runs: u64 = std::env::var("VP_FUZZ_RUNS").ok().and_then(|s| s.parse().ok()).unwrap_or(tier.pick(20_000, 300_000));
+    let budget = std::time::Duration::from_secs(tier.pick(600, 5400));
+    let start = Instant::now();
+    let mut children = Vec::new();
+    for w in 0..workers {
+        let log = std::fs::File::create(work.join(format!("log-{}.txt", w))).expect("fuzz log");
+        let seed = 1 + (ctx.seed.wrapping_mul(1000).wrapping_add(w)) % 0x7FFF_FFFF;
+        let child = Command::new(exe)
+            .arg(&corpus)
+            .arg(format!("-runs={}", runs))
+            .arg(format!("-seed={}", seed))
+            .arg("-max_len=400")
+            .arg("-len_control=0")
+            .arg("-timeout=30")
+            .arg("-rss_limit_mb=6000")
+            .arg("-reload=1")
+            .arg(format!("-artifact_prefix={}/w{}-", art.display(), w))
+            .env("VP_FUZZ_PROP", &id)
+            .env("VP_FUZZ_STATS", work.join(format!("stats-{}.json", w)))
+            .env("VERIF_DIR", verif_dir())
+            .stdin(Stdio::null())
+            .stdout(Stdio::null())
+            .stderr(Stdio::from(log))
+            .spawn();
+        match child {
+            Ok(c) => children.push((w, c)),
+            Err(e) => ctx.inconclusive.push(format!("cannot start the libFuzzer target {}: {}", exe.display(), e)),
+        }
+    }
+    for (w, mut c) in children {
+        loop {
+            match c.try_wait() {
+                Ok(Some(_)) => break,
+                Ok(None) if start.elapsed() > budget => {
+                    let _ = c.kill();
+                    let _ = c.wait();
+                    ctx.inconclusive.push(format!("libFuzzer worker {} exceeded the wall-clock budget of {} s", w, budget.as_secs()));
+                    break;
+                }
+                Ok(None) => std::thread::sleep(std::time::Duration::from_millis(50)),
+                Err(e) => {
+                    ctx.inconclusive.push(format!("waiting for libFuzzer worker {}: {}", w, e));
+                    break;
+                }
+            }
+        }
+    }
+    // counts
+    let (mut execs, mut checked, mut known_hits) = (0u64, 0u64, 0u64);
+    for w in 0..workers {
+        let p = work.join(format!("stats-{}.json", w));
+        let j: Json = match std::fs::read_to_string(&p).ok().and_then(|t| serde_json::from_str(&t).ok()) {
+            Some(j) => j,
+            None => {
+                ctx.inconclusive.push(format!("libFuzzer worker {} left no statistics (see {})", w, work.join(format!("log-{}.txt", w)).display()));
+                continue;
+            }
+        };
+        execs += j["execs"].as_u64().unwrap_or(0);
+        checked += j["checked"].as_u64().unwrap_or(0);
+        known_hits += j["known_hits"].as_u64().unwrap_or(0);
+        let mut st = Stats::default();
+        st.evals = j["checked"].as_u64().unwrap_or(0);
+        if let Some(ds) = j["nontrivial_digests"].as_array() {
+            st.nontrivial.extend(ds.iter().filter_map(|d| d.as_u64()));
+        }
+        if let Some(cs) = j["classes"].as_object() {
+            for (k, v) in cs {
+                st.classes.insert(k.clone(), v.as_u64().unwrap_or(0));
+            }
+        }
+        ctx.merge(st);
+    }
+    let corpus_files = std::fs::read_dir(&corpus).map(|rd| rd.count()).unwrap_or(0);
+    ctx.notes.push(format!(
+        "coverage-guided stage (libFuzzer, sancov, debug assertions and the UTF-8 hook assertions on): {} workers x {} executions from {} seed inputs; {} executions, {} decoded to a case and went through the oracle ({} hits on listed findings); the corpus grew to {} inputs",
+        workers, runs, nseeds, execs, checked, known_hits, corpus_files
+    ));
+    *ctx.stats.classes.entry("engine:libfuzzer-executions".to_string()).or_insert(0) += execs;
+    // saved inputs
+    let mut arts: Vec<PathBuf> = std::fs::read_dir(&art).map(|rd| rd.filter_map(|e| e.ok().map(|e| e.path())).collect()).unwrap_or_default();
+    arts.sort();
+    for a in arts {
+        let name = a.file_name().and_then(|n| n.to_str()).unwrap_or("").to_string();
+        let data = match std::fs::read(&a) {
+            Ok(d) => d,
+            Err(_) => continue,
+        };
+        if name.contains("timeout-") || name.contains("oom-") || name.contains("slow-unit-") {
+            if !name.contains("slow-unit-") {
+                ctx.inconclusive.push(format!("libFuzzer reported {} (input {}); not counted as a violation", name, hex(&data)));
+            }
+            continue;
+        }
+        match util::catch(|| vp::fuzz_entry::run(&id, &data)) {
+            Ok(Some(Err(f))) => ctx.add_violation("fuzz", f),
+            Ok(Some(Ok(_))) | Ok(None) => {
+                // the instrumented build failed on it, the plain build does not
+                let sig = format!("{} fuzz crash not reproduced by the oracle in the plain build", id);
+                ctx.add_violation("fuzz", Failure::new(sig, format!("libFuzzer saved {} but vp fuzz-replay passes; see the worker logs in {}", name, work.display()), json!({"fuzz_input": hex(&data)})));
+            }
+            Err(pm) => ctx.add_violation("fuzz", Failure::new(format!("{} fuzz panic outside the oracle: {}", id, util::panic_sig(&pm)), pm, json!({"fuzz_input": hex(&data)}))),
+        }
+    }
+}
+
+/// vp fuzz-smoke <ID> <n> [seed]: n pseudo-random and seed-derived inputs through
+/// the fuzz entry of a property, without libFuzzer (development aid: speed,
+/// decode rate, false alarms).
+fn cmd_fuzz_smoke(args: &[String]) -> i32 {
+    use rayon::prelude::*;
+    let id = args.get(0).cloned().unwrap_or_default();
+    let n: u64 = args.get(1).and_then(|s| s.parse().ok()).unwrap_or(10_000);
+    let seed: u64 = args.get(2).and_then(|s| s.parse().ok()).unwrap_or(1);
+    util::install_quiet_panic_hook();
+    let mut seeds: Vec<Vec<u8>> = Vec::new();
+    if let Ok(rd) = std::fs::read_dir(verif_dir().join("harness/fuzz/seeds/common")) {
+        for e in rd.flatten() {
+            if let Ok(d) = std::fs::read(e.path()) {
+                seeds.push(d);
+            }
+        }
+    }
+    seeds.sort();
+    let start = Instant::now();
+    let results: Vec<(u64, u64, Option<(String, String, Vec<u8>)>)> = (0..n)
+        .into_par_iter()
+        .map(|i| {
+            let mut x = engine::mix(seed, i);
+            let mut next = || {
+                x = engine::mix(x, 0x1234_5678);
+                x
+            };
+            let mut data: Vec<u8> = if !seeds.is_empty() && next() % 2 == 0 {
+                seeds[(next() % seeds.len() as u64) as usize].clone()
+            } else {
+                (0..next() % 120).map(|_| next() as u8).collect()
+            };
+            for _ in 0..next() % 6 {
+                if data.is_empty() {
+                    break;
+                }
+                let at = (next() % data.len() as u64) as usize;
+                match next() % 3 {
+                    0 => data[at] = next() as u8,
+                    1 => {
+                        const PUNCT: &[u8] = b"()#\\\".;'`,|[]0123456789ae+-:?xX";
+                        data.insert(at, PUNCT[(next() % PUNCT.len() as u64) as usize])
+                    }
+                    _ => {
+                        data.remove(at);
+                    }
+                }
+            }
+            if !data.is_empty() && next() % 2 == 0 {
+                data[0] = next() as u8;
+            }
+            match util::catch(|| vp::fuzz_entry::run(&id, &data)) {
+                Ok(None) => (0, 0, None),
+                Ok(Some(Ok(ev))) => (1, ev.nontrivial as u64, None),
+                Ok(Some(Err(f))) => (1, 0, Some((f.signature, f.message, data))),
+                Err(pm) => (1, 0, Some((format!("panic outside the oracle: {}", util::panic_sig(&pm)), pm, data))),
+            }
+        })
+        .collect();
+    let checked: u64 = results.iter().map(|r| r.0).sum();
+    let nontrivial: u64 = results.iter().map(|r| r.1).sum();
+    let mut sigs: std::collections::BTreeMap<String, (u64, String, Vec<u8>)> = Default::default();
+    for (_, _, f) in results {
+        if let Some((sig, msg, data)) = f {
+            let e = sigs.entry(sig).or_insert((0, msg, data));
+            e.0 += 1;
+        }
+    }
+    println!("{}: {} inputs, {} decoded, {} non-trivial, {} failing signatures, {:.1}s", id, n, checked, nontrivial, sigs.len(), start.elapsed().as_secs_f64());
+    for (sig, (k, msg, data)) in &sigs {
+        println!("  {} x {}\n    {}\n    input {}", k, sig, mv::clip(msg, 300), hex(data));
+    }
+    if sigs.is_empty() {
+        0
+    } else {
+        1
+    }
+}
+
+/// vp fuzz-replay <ID> <file>: run one libFuzzer input through the property's oracle.
+fn cmd_fuzz_replay(args: &[String]) -> i32 {
+    let (id, file) = match (args.get(0), args.get(1)) {
+        (Some(i), Some(f)) => (i, f),
+        _ => {
+            eprintln!("usage: vp fuzz-replay <ID> <file>");
+            return 2;
+        }
+    };
+    let data = std::fs::read(file).expect("read input");
+    util::install_quiet_panic_hook();
+    match vp::fuzz_entry::run(id, &data) {
+        None => {
+            println!("SKIP the input does not decode to a case of {}", id);
+            0
+        }
+        Some(Ok(ev)) => {
+            println!("PASS property={} nontrivial={} classes={:?}", id, ev.nontrivial, ev.classes);
+            0
+        }
+        Some(Err(f)) => {
+            println!("VIOLATION property={} replay={}", id, file);
+            println!("  signature={}", f.signature);
+            println!("  {}", mv::clip(&f.message, 600));
+            1
+        }
+    }
+}
+
 fn main() {
     let args: Vec<String> = std::env::args().skip(1).collect();
     let code = match args.get(0).map(|s| s.as_str()) {
@@ -229,6 +479,8 @@ fn main() {
             Some("c16") => props::c16::child_main(args.get(2).map(|s| s.as_str()).unwrap_or("")),
             _ => 2,
         },
+        Some("fuzz-replay") => cmd_fuzz_replay(&args[1..]),
+        Some("fuzz-smoke") => cmd_fuzz_smoke(&args[1..]),
         Some("selftest") => {
             selftest();
             println!("selftest ok ({})", BUILD);
